@@ -282,7 +282,10 @@ fn l1(rep: &Arc<Reporter>, args: &Args) {
             let mut cuts: Vec<usize> = (0..k).map(|_| r.range(1, 260) as usize).collect();
             if r.chance(1, 8) { cuts = (1..260).collect(); }
             cuts.sort(); cuts.dedup();
-            let gap = Duration::from_millis(*r.pick(&[0u64, 2]));
+            let mut gap = Duration::from_millis(*r.pick(&[0u64, 2]));
+            // a few flights arrive in two pieces a long pause apart (a paced or retransmitted later segment): "all arrival
+            // timings of the first flight" - the random is still the one the client sent (seeded change C12e)
+            if i % 40 == 7 { cuts = vec![[3usize, 20, 60, 200][(i / 40) as usize % 4]]; gap = Duration::from_millis([700u64, 1300][(i / 40) as usize % 2]); }
             let Ok(tcp) = TcpStream::connect(addr).await else { rep.inconclusive("connect failed"); continue; };
             let _ = tcp.set_nodelay(true);
             let seg = Seg { inner: tcp, cuts: cuts.clone(), written: 0, gap, delay: None };
@@ -391,7 +394,7 @@ pub fn run(args: &Args) -> i32 {
         "L0: first flights of a real rustls client and synthetic ClientHellos (padding and post-quantum-sized key shares up to > 16 KiB, legacy versions, \
          session ids, hello fragmented across records, trailing records) - the extractor is run on every prefix (sampled for long flights) and on byte \
          mutations; L1: real loopback sockets through the real TlsListener::listen + Core::on_new_tls_connection with the first flight written in seeded \
-         segments (0-3 cuts or byte-at-a-time, gaps 0/2 ms): extracted random vs bytes 11..43 the client wrote, SNI/ALPN, certificate and a working session. \
+         segments (0-3 cuts or byte-at-a-time, gaps 0/2 ms, and a few flights in two pieces 0.7-1.3 s apart): extracted random vs bytes 11..43 the client wrote, SNI/ALPN, certificate and a working session. \
          distinct_nontrivial = distinct flights / segmentations.",
     ));
     rep.assume("a ClientHello fragmented across records (incl. any hello > 16 KiB) may be reported as absent, never as another value");
